@@ -54,9 +54,11 @@ func (m *NodeMarks) grow(i int) {
 //
 //	for i := m.Next(-1); i >= 0; i = m.Next(i) { ... }
 func (m NodeMarks) Next(i int) int {
-	i++
 	if i < 0 {
 		i = 0
+	} else if i++; i < 0 {
+		// i was the largest int; no mark can follow it.
+		return -1
 	}
 	// Start with the block containing i.
 	if i/32 >= len(m.marks) {
